@@ -41,6 +41,24 @@ def rule_r1(chk, db, v):
     chk.floor("R1.ext", len(ext), 1, "writes to S3Extensions.multipart")
     for b, bi, st in ext:
         sl = flow.backward(b, st["rv"]["ops"][0], at=bi)
+        if ("SignatureContext", "multipart") not in sl.fields:
+            # the write sits in a helper that receives the value as a parameter: look at it where the helper is used
+            try:
+                ctx = inline.contexts_of(db, b, bi)
+            except Exception:
+                ctx = []
+            oks = []
+            for ib, cbi in ctx:
+                hit = False
+                for st2 in ib.blocks[cbi]["stmts"]:
+                    pf2 = flow.proj_fields(flow.norm_proj(st2["dst"]["proj"]))
+                    if pf2 and pf2[-1] == ("S3Extensions", "multipart"):
+                        s2 = flow.backward(ib, st2["rv"]["ops"][0], at=cbi)
+                        hit = ("SignatureContext", "multipart") in s2.fields
+                oks.append(hit)
+            if oks and all(oks):
+                chk.ok("R1", "s3ext.multipart@" + db.root_of(b).name.replace("s3s::", ""), b.loc(bi), {"in_context": len(oks)})
+                continue
         chk.verdict(("SignatureContext", "multipart") in sl.fields, "R1", "s3ext.multipart@" + db.root_of(b).name.replace("s3s::", ""), b.loc(bi),
                     "req.s3ext.multipart is written from something other than the verifier's SignatureContext.multipart")
 
